@@ -45,6 +45,10 @@ def leaf_emit_factory(variant):
         if variant == "sv2" and b == "c":
             state["n"] += 1
             return "%c" if state["n"] % 2 else "%c2"
+        # variant 'sv3': accesses to c alternate between a view of a view and the base buffer itself
+        if variant == "sv3" and b == "c":
+            state["n"] += 1
+            return "%c" if state["n"] % 2 else "%cbase"
         return "%" + b
 
     def leaf_emit(leaf, tag, ivs):
@@ -75,6 +79,10 @@ def build_text(prog, variant):
         args.append(f"%cc : memref<16xi32>")
         pre.append(f"  %c = memref.subview %cc[0] [8] [1] : memref<16xi32> to {MT}")
         pre.append(f"  %c2 = memref.subview %cc[0] [8] [1] : memref<16xi32> to {MT}")
+    elif variant == "sv3":
+        args.append(f"%cbase : {MT}")
+        pre.append(f"  %cmid = memref.subview %cbase[0] [8] [1] : {MT} to {MT}")
+        pre.append(f"  %c = memref.subview %cmid[0] [8] [1] : {MT} to {MT}")
     args += [f"%c{k} : i1" for k in range(em.nif)] + [f"%n{k} : index" for k in range(em.nfor)]
     text = "builtin.module {\nfunc.func @f(" + ", ".join(args) + ") {\n  %zero = arith.constant 0 : index\n  %one = arith.constant 1 : index\n"
     text += "\n".join(pre + body_lines + post) + "\n  func.return\n}\n}\n"
@@ -104,6 +112,7 @@ def space(tier):
             out.append((p, "sv"))
             if ST.count(p, lambda s: s[0] in ("D", "C") and "c" in s[1:]) >= 2:
                 out.append((p, "sv2"))
+                out.append((p, "sv3"))
     return out
 
 
@@ -164,7 +173,7 @@ def make_args(variant, trips, conds):
     a = View(("a", 0), 4, 0, [8], [1], 0x1000)
     b = View(("b", 0), 4, 0, [8], [1], 0x2000)
     args = [a, b]
-    if variant == "arg":
+    if variant in ("arg", "sv3"):
         args.append(View(("c", 0), 4, 0, [8], [1], 0x3000))
     elif variant in ("sv", "sv2"):
         args.append(View(("c", 0), 4, 0, [16], [1], 0x3000))
